@@ -406,9 +406,11 @@ theorem Condvar.reacquires (w : World) (c : TCtl) (vi mi : Nat) (m : MutexSt)
 /-! ## 6. `Join.after_exit` -/
 
 /-- The epilogue of a spawned thread `t ≠ 0` whose `JoinHandle` notify is `n`: first the branch
-point of `notify` (which terminates nobody and changes no notify object), then `notifyEffect n` and
-only THEN `thread_done`: in the state in which the thread has exited the flag of `n` is set and
-`n`'s clock is above the exiting thread's causality. -/
+point of `notify` (which terminates nobody and changes no notify object), then `notifyEffect n`
+(the flag of `n` is set and `n`'s clock is above the exiting thread's causality; the thread enters
+the common tail, `fin := 10`), and only THEN the tail `finishThread` (`drop_locals`, the
+thread-local destructors, `thread_done`), which leaves every notify object alone: in the state in
+which the thread has exited the flag of `n` is still set. -/
 theorem Join.after_exit {w w' : World} {c : TCtl} {b n : Nat} {s : NotifySt}
     (ht : w.tid ≠ 0) (hsp : w.spawned.find? (·.2.1 == w.tid) = some (b, w.tid, n))
     (hn : w.exec.objs[n]? = some (.notify s)) (h : w.runEpilogue c = .ok w') :
@@ -416,13 +418,15 @@ theorem Join.after_exit {w w' : World} {c : TCtl} {b n : Nat} {s : NotifySt}
       (w.modCtl w.tid fun c => { c with fin := 1 }).branch n .opaque = .ok w' ∧
       NotifyKept w.exec.objs w'.exec.objs ∧
       ∀ i, (w'.ths.get i).isTerminated = true → (w.ths.get i).isTerminated = true) ∧
-    (c.fin ≠ 0 →
-      ∃ w1 s1 a, w.notifyEffect n = .ok w1 ∧
-        (w1.modCtl w.tid fun c => { c with fin := 2 }).threadDone = .ok w' ∧
+    (c.fin ≠ 0 → c.fin < 10 →
+      ∃ w1 s1, w.notifyEffect n = .ok w1 ∧
+        w' = w1.modCtl w.tid (fun c => { c with fin := 10 }) ∧
         w1.exec.objs[n]? = some (.notify s1) ∧ s1.notified = true ∧ w.ths.caus.le s1.sync.hb ∧
-        w'.exec.objs[n]? = some (.notify { s1 with lastAccess := a })) :=
+        w'.exec.objs[n]? = some (.notify s1)) ∧
+    (10 ≤ c.fin → w.finishThread c = .ok w' ∧ NotifyKept w.exec.objs w'.exec.objs) :=
   ⟨fun hf => epilogue_first_stage ht hsp hf h,
-    fun hf => epilogue_notifies_then_exits ht hsp hn hf h⟩
+    fun hf hlt => epilogue_notifies_then_exits ht hsp hn hf hlt h,
+    fun hge => epilogue_tail_keeps hge h⟩
 
 /-- `join b` is `Notify::wait` on the `JoinHandle`'s object `n`: stage 0 is `notifyWait1 n`, and
 stage 1 (`notifyWait2 n`) returns only if the flag of `n` is set — which only a `notifyEffect n`
@@ -441,14 +445,14 @@ theorem Join.waits_for_flag {w w' : World} {c : TCtl} {b t n : Nat} {s : NotifyS
 causality is above the joined thread's causality at its exit. -/
 theorem Join.hb {wE wE' wJ wJ' : World} {cE cJ : TCtl} {bE b t n : Nat} {s0 s1 s2 : NotifySt}
     (ht : wE.tid ≠ 0) (hsp : wE.spawned.find? (·.2.1 == wE.tid) = some (bE, wE.tid, n))
-    (hn : wE.exec.objs[n]? = some (.notify s0)) (hfin : cE.fin ≠ 0)
+    (hn : wE.exec.objs[n]? = some (.notify s0)) (hfin : cE.fin ≠ 0) (hlt : cE.fin < 10)
     (hE : wE.runEpilogue cE = .ok wE') (hn1 : wE'.exec.objs[n]? = some (.notify s1))
     (hsteps : NotifySteps s1 s2)
     (hl : wJ.lookupSpawn b = .ok (t, n)) (hn2 : wJ.exec.objs[n]? = some (.notify s2))
     (hs : cJ.stage = 1) (hin : wJ.tid < wJ.ths.threads.length)
     (hJ : wJ.runOp cJ (.join b) = .ok wJ') :
     wE.ths.caus.le wJ'.ths.caus :=
-  join_hb ht hsp hn hfin hE hn1 hsteps hl hn2 hs hin hJ
+  join_hb ht hsp hn hfin hlt hE hn1 hsteps hl hn2 hs hin hJ
 
 /-! ## 7. non-vacuity -/
 
